@@ -213,7 +213,11 @@ func runC38(c *Ctx) {
 		}
 		p1, n1, _ := dbg(rd[0])
 		p2, n2, _ := dbg(tr[0])
-		payload := u.HasGuardContaining(rd[0], "info.RequestData) > 0") && u.HasGuardContaining(tr[0], "info.RequestData) > 0")
+		// "a payload exists": len(...) > 0, or the complement of an early exit on len(...) == 0
+		hasPayload := func(in ssa.Instruction) bool {
+			return u.HasGuardContaining(in, "info.RequestData) > 0") || u.HasGuardContaining(in, "info.RequestData) != 0")
+		}
+		payload := hasPayload(rd[0]) && hasPayload(tr[0])
 		r.Check(p1 && !n1 && n2 && !p2 && tr[0].Block() == ob[0].Block() && payload, "R-PAYLOAD-MARKER", "emit", u.Pos(rd[0].Pos()), "payload xor omitted-marker, chosen by the debug flag, only when a payload exists", "request_data and the payload-omitted marker are not mutually exclusive on the debug flag")
 	} else {
 		r.Viol("R-PAYLOAD-MARKER", "emit", u.Pos(fn.Pos()), "payload/marker writes not unique")
